@@ -183,6 +183,9 @@ struct Boot {
     bufs: *mut SubscriptionsBuffers<'static, Pool, N>,
     /// (subscription id, priming?, context), creation order
     ctxs: Vec<(u32, bool, Ctx)>,
+    /// per context: (an attribute was emitted, paths passed so far) - what `respond` in im.rs knows when it
+    /// decides whether an empty report is sent
+    meta: Vec<(bool, u64)>,
 }
 
 impl Drop for Boot {
@@ -204,6 +207,7 @@ impl Boot {
             subs: Box::into_raw(Box::new(Subscriptions::<N>::new())),
             bufs: Box::into_raw(Box::new(SubscriptionsBuffers::new())),
             ctxs: Vec::new(),
+            meta: Vec::new(),
         }
     }
     fn pool(&self) -> &'static Pool {
@@ -319,6 +323,7 @@ impl Machine {
                     Some(rctx) => {
                         let id = rctx.subscription().ids().id;
                         self.boot.ctxs.push((id, true, rctx));
+                        self.boot.meta.push((false, 0));
                         (format!("s{}", id), None)
                     }
                     None => ("s-".into(), None),
@@ -328,6 +333,10 @@ impl Machine {
                 Some(i) => {
                     let (e, c, a) = path_of_index(*k);
                     let b = self.boot.ctxs[i].2.should_report_attr(e, c, a);
+                    if self.boot.meta[i].1 & (1 << k) == 0 {
+                        self.boot.meta[i].1 |= 1 << k;
+                        self.boot.meta[i].0 |= b;
+                    }
                     ((if b { "t" } else { "f" }).into(), Some(b))
                 }
                 None => ("-".into(), None),
@@ -335,13 +344,36 @@ impl Machine {
             Op::End(sid, r) => match self.boot.ctx_index(*sid) {
                 Some(i) => {
                     let (_, _, mut rctx) = self.boot.ctxs.remove(i);
+                    let (mut emitted, passed) = self.boot.meta.remove(i);
+                    let mut sent = None;
                     match r {
                         'o' => rctx.set_keep(),
                         'f' => rctx.set_keep_retry(),
+                        's' => {
+                            // what im.rs does with a report that found no event to send: the rest of the request is
+                            // passed; the report is sent if an attribute was emitted or it is the liveness report,
+                            // else it is skipped (set_unsent) - and kept either way
+                            let mask = mask_of(rctx.rx()) & ALL_PATHS;
+                            for k in 0..NPATHS {
+                                if mask & (1 << k) != 0 && passed & (1 << k) == 0 {
+                                    let (e, c, a) = path_of_index(k);
+                                    emitted |= rctx.should_report_attr(e, c, a);
+                                }
+                            }
+                            let s = rctx.should_send_if_empty() || emitted;
+                            if !s {
+                                rctx.set_unsent();
+                            }
+                            rctx.set_keep();
+                            sent = Some(s);
+                        }
                         _ => {}
                     }
                     drop(rctx);
-                    ("t".into(), None)
+                    match sent {
+                        Some(s) => ((if s { "t" } else { "f" }).into(), Some(s)),
+                        None => ("t".into(), None),
+                    }
                 }
                 None => ("-".into(), None),
             },
@@ -353,6 +385,7 @@ impl Machine {
                     Some(rctx) => {
                         let id = rctx.subscription().ids().id;
                         self.boot.ctxs.push((id, false, rctx));
+                        self.boot.meta.push((false, 0));
                         (format!("s{}", id), None)
                     }
                     None => ("s-".into(), None),
@@ -738,6 +771,8 @@ impl Gen {
                 'f'
             } else if self.rng.chance(1, 20) {
                 'd'
+            } else if self.rng.chance(1, 4) {
+                's'
             } else {
                 'o'
             };
@@ -774,7 +809,7 @@ impl Gen {
                 let all = [prim.clone(), rep.clone()].concat();
                 if !all.is_empty() {
                     let sid = *self.rng.pick(&all);
-                    let r = *self.rng.pick(&['o', 'o', 'o', 'o', 'f', 'f', 'd']);
+                    let r = *self.rng.pick(&['o', 'o', 'o', 's', 's', 'f', 'f', 'd']);
                     self.end(sid, r);
                 } else {
                     self.tick(3000);
@@ -975,6 +1010,46 @@ fn gen_case(stream: &str, id: u64, rng: Rng) -> (String, BTreeMap<String, u64>, 
                 }
             }
         }
+        // liveness under changes that do not concern the subscriber: attributes outside every subscription keep
+        // changing at a third of the maximum interval; every report they trigger is empty and skipped - until the
+        // liveness report falls due, which must go out (and must not have been postponed by the skipped ones)
+        "l" => {
+            g.now = g.rng.below(100_000);
+            let max = *g.rng.pick(&[40u16, 60, 90]);
+            let masks = [0x0000ffu64, 0x00ff00, 0x000f0f];
+            let m = *g.rng.pick(&masks);
+            for _ in 0..g.rng.range(1, 2) {
+                let min = *g.rng.pick(&[0u16, 0, 5]);
+                if let Some(sid) = g.subscribe_mask(Some(min), Some(max), m) {
+                    g.push(Op::End(sid, 'o'));
+                }
+            }
+            let step = max as u64 * 1000 / 3 - g.rng.below(3000);
+            for _ in 0..9 {
+                if g.ops.len() >= 56 {
+                    break;
+                }
+                g.tick(0);
+                g.now += step;
+                // a path of endpoint 2 (bits 16..23): outside all the masks above
+                let k = 16 + g.rng.below(8);
+                let (e, c, a) = path_of_index(k);
+                g.push(Op::Change(e as u64, c as u64, a as u64));
+                if g.rng.chance(1, 6) {
+                    // ... and now and then one that does concern it
+                    let k = (0..16).filter(|k| m & (1 << k) != 0).nth(g.rng.below(4) as usize).unwrap_or(0);
+                    let (e, c, a) = path_of_index(k);
+                    g.push(Op::Change(e as u64, c as u64, a as u64));
+                }
+                g.push(Op::Wake(g.now));
+                for _ in 0..2 {
+                    let o = g.push(Op::Begin(g.now, 0));
+                    let Some(sid) = o[1..].parse::<u32>().ok() else { break };
+                    g.push(Op::End(sid, 's'));
+                }
+                g.push(Op::Purge);
+            }
+        }
         // failing reports, back-off, expiry; restart with persisted subscriptions
         _ => {
             let max = *g.rng.pick(&[40u16, 40, 60, 90]);
@@ -1011,8 +1086,8 @@ fn gen_case(stream: &str, id: u64, rng: Rng) -> (String, BTreeMap<String, u64>, 
 
 fn generate(tier: &str, seed: u64) -> (Vec<String>, BTreeMap<String, u64>) {
     let scale = if tier == "thorough" { 40 } else { 1 };
-    let plan: [(&str, u64); 5] =
-        [("r", 2200 * scale), ("p", 1200 * scale), ("o", 800 * scale), ("x", 800 * scale), ("g", 600 * scale)];
+    let plan: [(&str, u64); 6] =
+        [("r", 2200 * scale), ("p", 1200 * scale), ("o", 800 * scale), ("x", 800 * scale), ("g", 600 * scale), ("l", 400 * scale)];
     let mut rng = Rng::new(seed);
     let mut cases = Vec::new();
     let mut hist: BTreeMap<String, u64> = BTreeMap::new();
@@ -1174,6 +1249,14 @@ fn gen_e2e(rng: &mut Rng, tier: &str) -> Vec<String> {
             };
             let _ = cb;
             v.push(format!("L s:0:60:{}:1:0:{} {}", m, filt, tail));
+        }
+        // changes that do not concern the subscriber: the reports they trigger are empty and not sent; they
+        // must not move the instant liveness is measured from (and a change that does concern it still arrives)
+        for _ in 0..6 {
+            let m = *rng.pick(&[0x0000ffu64, 0x00ff00, 0x000f0f]);
+            let inside = (0..16).filter(|k| m & (1 << k) != 0).nth(rng.below(4) as usize).unwrap_or(0);
+            let (o1, o2) = (16 + rng.below(8), 16 + rng.below(8));
+            v.push(format!("L s:0:60:{}:1:0 A w:30 c:{} w:20 c:{} q c:{} q c:{} q", m, o1, o2, inside, o1));
         }
         // free interleavings of the steps
         for _ in 0..40 {
